@@ -25,7 +25,7 @@ Proof.
   intros W s l s' j WF R S P. pose proof (reachable_inv W s WF R) as I.
   destruct (ext_step _ WF I S) as (_ & ST). destruct (ST j) as (A & B & C & _).
   pose proof (l_A (I_loc I j) P) as F.
-  split; [|split; auto]. destruct (st (jobs s j)); simpl in F; try discriminate; [apply A|apply B]; reflexivity.
+  split; [|split; auto]. destruct (st (jobs s j)); simpl in F; try discriminate; [apply A|apply B]; auto.
 Qed.
 
 Theorem final_absorbing : forall W ls s s' j, wf W = true -> reachable W s -> steps W s ls = Some s' ->
@@ -100,7 +100,10 @@ Qed.
 (* ------------------------------------------------------------------ C06 final_truthful *)
 Theorem final_truthful : forall W s j r, wf W = true -> reachable W s -> pc (jobs s j) = PReturned r ->
   st (jobs s j) = r /\
-  (r = DONE <-> (j_marker (spec W j) = true \/ ((launches (jobs s j) >= 1)%nat /\ j_code (spec W j) = 0))) /\
+  match adopted W j with
+  | Some v => r = v
+  | None => r = DONE <-> (j_marker (spec W j) = true \/ ((launches (jobs s j) >= 1)%nat /\ j_code (spec W j) = 0))
+  end /\
   (r <> DONE -> r = ERROR).
 Proof.
   intros W s j r WF R P. pose proof (I_loc (reachable_inv W s WF R) j) as L. unfold jl in L.
@@ -108,49 +111,54 @@ Proof.
   assert (F : finished (st (jobs s j)) = true) by (apply (l_A L); rewrite P; auto).
   assert (ST : started (pc (jobs s j)) = true) by (rewrite P; auto).
   pose proof (l_L1 L) as L1.
-  split; [split|].
-  - intros D. rewrite <- RT in D. destruct (launches (jobs s j)) as [|[|n]] eqn:E; [| |exfalso; clear - L1; lia].
-    + left. apply (l_L0 L); auto.
-    + right. split; [clear; lia|]. destruct (l_L2 L E) as (_ & [X|(_ & X)]); [rewrite P in X; discriminate|].
-      unfold code_state in X. destruct (j_code (spec W j) =? 0) eqn:C; [apply Z.eqb_eq; auto|congruence].
-  - intros [M|(LA & C)].
-    + rewrite <- RT. apply (l_mk L M ST).
-    + assert (E : launches (jobs s j) = 1%nat) by (clear - LA L1; lia).
-      destruct (l_L2 L E) as (_ & [X|(_ & X)]); [rewrite P in X; discriminate|].
-      rewrite <- RT, X. unfold code_state. rewrite C. reflexivity.
+  split.
+  - destruct (adopted W j) as [v|] eqn:AD.
+    + destruct (l_ad L) as [X|(_ & X)]; [discriminate|auto|rewrite P in X; discriminate|]. congruence.
+    + split.
+      * intros D. rewrite <- RT in D. destruct (launches (jobs s j)) as [|[|n]] eqn:E; [| |exfalso; clear - L1; lia].
+        -- left. destruct (l_L0 L E D) as [(_ & X)|X]; [auto|discriminate].
+        -- right. split; [clear; lia|]. destruct (l_L2 L E) as (_ & [X|(_ & X)]); [rewrite P in X; discriminate|].
+           unfold code_state in X. destruct (j_code (spec W j) =? 0) eqn:C; [apply Z.eqb_eq; auto|congruence].
+      * intros [M|(LA & C)].
+        -- rewrite <- RT. apply (l_mk L M eq_refl ST).
+        -- assert (E : launches (jobs s j) = 1%nat) by (clear - LA L1; lia).
+           destruct (l_L2 L E) as (_ & [X|(_ & X)]); [rewrite P in X; discriminate|].
+           rewrite <- RT, X. unfold code_state. rewrite C. reflexivity.
   - intros N. rewrite <- RT in *. destruct (st (jobs s j)); simpl in F; try discriminate; auto. contradiction.
 Qed.
 
 (* ------------------------------------------------------------------ C07 failures are contained *)
-(* j has an ancestor that ended in error, through jobs that had not already succeeded in an
-   earlier run (a job whose marker pre-existed is DONE whatever happened to its own inputs) *)
+(* j has an ancestor that ended in error, through jobs that were neither already successful in an
+   earlier run (marker) nor still running from an earlier run (adopted process): such a job is
+   decided by that earlier run, whatever happens to its own inputs now *)
 Inductive fanc (W : workload) (s : state) : nat -> Prop :=
   | fa_direct : forall j k, In (DJob k) (deps W j) -> st (jobs s k) = ERROR -> fanc W s j
-  | fa_step : forall j m, In (DJob m) (deps W j) -> j_marker (spec W m) = false -> fanc W s m -> fanc W s j.
+  | fa_step : forall j m, In (DJob m) (deps W j) -> j_marker (spec W m) = false -> adopted W m = None ->
+                fanc W s m -> fanc W s j.
 
 Lemma fanc_blocked : forall W s j, wf W = true -> reachable W s -> fanc W s j ->
-  launches (jobs s j) = 0%nat /\ (j_marker (spec W j) = false -> st (jobs s j) <> DONE).
+  launches (jobs s j) = 0%nat /\ (j_marker (spec W j) = false -> adopted W j = None -> st (jobs s j) <> DONE).
 Proof.
   intros W s j WF R F. pose proof (reachable_inv W s WF R) as I.
   assert (G : forall j, (exists k, In (DJob k) (deps W j) /\ st (jobs s k) <> DONE) ->
-            launches (jobs s j) = 0%nat /\ (j_marker (spec W j) = false -> st (jobs s j) <> DONE)).
+            launches (jobs s j) = 0%nat /\ (j_marker (spec W j) = false -> adopted W j = None -> st (jobs s j) <> DONE)).
   { intros x (k & D & N). assert (L0 : launches (jobs s x) = 0%nat).
     { destruct (launches (jobs s x)) as [|n] eqn:E; auto. exfalso. apply N.
       apply (launched_deps_done W s x k WF R); auto. rewrite E. clear. lia. }
-    split; auto. intros M D'. pose proof (l_L0 (I_loc I x) L0 D'). congruence. }
-  induction F as [j k D E|j m D M F IH].
+    split; auto. intros M AD D'. destruct (l_L0 (I_loc I x) L0 D') as [(_ & X)|X]; congruence. }
+  induction F as [j k D E|j m D M AD F IH].
   - apply G. exists k. split; auto. congruence.
   - apply G. exists m. split; auto. apply IH; auto.
 Qed.
 
 Theorem failed_ancestor_not_launched : forall W s j r, wf W = true -> reachable W s ->
-  fanc W s j -> j_marker (spec W j) = false ->
+  fanc W s j -> j_marker (spec W j) = false -> adopted W j = None ->
   launches (jobs s j) = 0%nat /\
   (pc (jobs s j) = PReturned r -> r = ERROR /\ fdep (jobs s j) = true).
 Proof.
-  intros W s j r WF R F M. destruct (fanc_blocked W s j WF R F) as (L0 & ND). split; auto.
+  intros W s j r WF R F M AD. destruct (fanc_blocked W s j WF R F) as (L0 & ND). split; auto.
   intros P. destruct (final_truthful W s j r WF R P) as (RT & _ & E).
-  assert (X : r = ERROR) by (apply E; intros D; apply (ND M); congruence).
+  assert (X : r = ERROR) by (apply E; intros D; apply (ND M AD); congruence).
   split; auto. apply (l_E (I_loc (reachable_inv W s WF R) j)); congruence.
 Qed.
 
@@ -162,19 +170,21 @@ Proof.
   apply (l_RT (I_loc (reachable_inv W s WF R) k) P).
 Qed.
 
+(* (while a process left by an earlier run is still running for a dependency, a failure of one of
+   that dependency's own inputs shows it as ERROR for a while: hence the hypothesis on the dependencies) *)
 Theorem independent_unaffected : forall W s j r, wf W = true -> reachable W s ->
-  pc (jobs s j) = PReturned r -> j_marker (spec W j) = false ->
-  (forall k, In (DJob k) (deps W j) -> st (jobs s k) = DONE) ->
+  pc (jobs s j) = PReturned r -> j_marker (spec W j) = false -> adopted W j = None ->
+  (forall k, In (DJob k) (deps W j) -> st (jobs s k) = DONE /\ adopted W k = None) ->
   launches (jobs s j) = 1%nat /\ r = code_state (j_code (spec W j)).
 Proof.
-  intros W s j r WF R P M A. pose proof (reachable_inv W s WF R) as I.
+  intros W s j r WF R P M AD A. pose proof (reachable_inv W s WF R) as I.
   destruct (final_truthful W s j r WF R P) as (RT & _ & E).
   pose proof (l_L1 (I_loc I j)) as L1.
   destruct (launches (jobs s j)) as [|[|n]] eqn:LA; [| |exfalso; clear - L1; lia].
   - exfalso. assert (X : r = ERROR).
-    { apply E. intros D. rewrite <- RT in D. pose proof (l_L0 (I_loc I j) LA D). congruence. }
+    { apply E. intros D. rewrite <- RT in D. destruct (l_L0 (I_loc I j) LA D) as [(_ & Y)|Y]; congruence. }
     assert (FD : fdep (jobs s j) = true) by (apply (l_E (I_loc I j)); congruence).
-    destruct (I_FD I j FD) as (k & Dk & Ek). rewrite (A k Dk) in Ek. discriminate.
+    destruct (I_FD I j FD) as (k & Dk & [Ek|Ek]); destruct (A k Dk) as (A1 & A2); congruence.
   - split; auto. destruct (l_L2 (I_loc I j) LA) as (_ & [X|(_ & X)]); [rewrite P in X; discriminate|congruence].
 Qed.
 
@@ -215,6 +225,7 @@ Proof.
         -- left. unfold abort_return. rewrite (proj1 (wst_commit _ _ _)). reflexivity.
         -- left. unfold proc_return. rewrite (proj1 (wst_commit _ _ _)). reflexivity.
         -- unfold done_return. simpl. unfold notify_exit. simpl. destruct (wst s) eqn:E; simpl; rewrite ?E; auto.
+        -- left. unfold adopt_return. destruct (adopted W j); auto. apply wst_commit.
     + left. apply wst_check.
     + destruct (nth_error (deps W j) i) as [[k|t c]|]; auto. destruct (0 <? avail s t)%nat; auto. left. apply wst_check.
     + destruct (wst s) eqn:E; auto. right; right; right. unfold wait_check.
@@ -315,20 +326,20 @@ Fixpoint expand (W : workload) (fx : fixes) (s : state) (xs : list ext) : list l
   end.
 
 Definition W_resubmit : workload :=
-  {| w_jobs := [ {| j_deps := []; j_code := 1; j_marker := false; j_ident := 0 |};
-                 {| j_deps := []; j_code := 0; j_marker := false; j_ident := 0 |} ]; w_tokens := [] |}.
+  {| w_jobs := [ {| j_deps := []; j_code := 1; j_marker := false; j_ident := 0; j_adopt := None |};
+                 {| j_deps := []; j_code := 0; j_marker := false; j_ident := 0; j_adopt := None |} ]; w_tokens := [] |}.
 Definition X_resubmit := [XSubmit 0; XDeliver 0; XDeliver 0; XDeliver 0; XDeliver 0; XSubmit 1;
                           XDeliver 1; XDeliver 1; XDeliver 1; XDeliver 1; XWait]%nat.
 
 Definition W_overwrite : workload :=
-  {| w_jobs := [ {| j_deps := [DTok 0 2]; j_code := 0; j_marker := false; j_ident := 0 |};
-                 {| j_deps := [DTok 0 1]; j_code := 0; j_marker := false; j_ident := 1 |} ]; w_tokens := [3%nat] |}.
+  {| w_jobs := [ {| j_deps := [DTok 0 2]; j_code := 0; j_marker := false; j_ident := 0; j_adopt := None |};
+                 {| j_deps := [DTok 0 1]; j_code := 0; j_marker := false; j_ident := 1; j_adopt := None |} ]; w_tokens := [3%nat] |}.
 Definition X_overwrite := [XSubmit 0; XSubmit 1; XDeliver 0; XDeliver 1; XDeliver 0; XDeliver 1; XDeliver 1;
                            XDeliver 0; XDeliver 0; XDeliver 1; XWait]%nat.
 
 Definition W_abort : workload :=
-  {| w_jobs := [ {| j_deps := [DTok 0 1]; j_code := 0; j_marker := false; j_ident := 0 |};
-                 {| j_deps := [DTok 0 1]; j_code := 0; j_marker := false; j_ident := 1 |} ]; w_tokens := [1%nat] |}.
+  {| w_jobs := [ {| j_deps := [DTok 0 1]; j_code := 0; j_marker := false; j_ident := 0; j_adopt := None |};
+                 {| j_deps := [DTok 0 1]; j_code := 0; j_marker := false; j_ident := 1; j_adopt := None |} ]; w_tokens := [1%nat] |}.
 Definition X_abort := [XSubmit 0; XSubmit 1; XDeliver 0; XDeliver 1; XDeliver 0; XDeliver 0; XDeliver 1; XDeliver 0; XWait]%nat.
 
 Definition quiescent (W : workload) (s : state) : Prop := queue s = [] /\ has_pending s W = false.
@@ -391,10 +402,10 @@ Proof. repeat split; vm_compute; reflexivity. Qed.
 
 (* ------------------------------------------------------------------ the hypotheses of the theorems are satisfiable *)
 Definition W_fail : workload :=
-  {| w_jobs := [ {| j_deps := []; j_code := 1; j_marker := false; j_ident := 0 |};
-                 {| j_deps := [DJob 0; DTok 0 1]; j_code := 0; j_marker := false; j_ident := 1 |};
-                 {| j_deps := [DTok 0 2]; j_code := 0; j_marker := false; j_ident := 2 |};
-                 {| j_deps := [DJob 2]; j_code := 0; j_marker := false; j_ident := 3 |} ]; w_tokens := [2%nat] |}.
+  {| w_jobs := [ {| j_deps := []; j_code := 1; j_marker := false; j_ident := 0; j_adopt := None |};
+                 {| j_deps := [DJob 0; DTok 0 1]; j_code := 0; j_marker := false; j_ident := 1; j_adopt := None |};
+                 {| j_deps := [DTok 0 2]; j_code := 0; j_marker := false; j_ident := 2; j_adopt := None |};
+                 {| j_deps := [DJob 2]; j_code := 0; j_marker := false; j_ident := 3; j_adopt := None |} ]; w_tokens := [2%nat] |}.
 Definition X_fail := [XSubmit 0; XSubmit 1; XSubmit 2; XSubmit 3; XDeliver 0; XDeliver 2; XDeliver 0; XDeliver 2;
                       XDeliver 2; XDeliver 0; XDeliver 2; XDeliver 0; XDeliver 1; XDeliver 3]%nat.
 Definition L_fail := expand W_fail all_fixed (init W_fail) X_fail.
